@@ -72,10 +72,21 @@ def run(eng, rep, tier):
     # redundant parentheses: the outer-parenthesis strip must be repeated until the text is no longer surrounded
     rc = prog.classes[READER]
     strippers = []
+    comp_loc = ("self", ("_components",))
+
+    def _const(e):
+        if isinstance(e, ast.Constant):
+            return e.value
+        if isinstance(e, ast.UnaryOp) and isinstance(e.op, ast.USub) and isinstance(e.operand, ast.Constant):
+            return -e.operand.value
+        return None
     for name, f in rc.methods.items():
-        for sub in ast.walk(f.node):
-            if isinstance(sub, ast.Assign) and isinstance(sub.value, ast.Subscript) and isinstance(sub.value.slice, ast.Slice) \
-                    and ast.unparse(sub.value.slice) == "1:-1" and "_components" in ast.unparse(sub.value.value):
+        # a `[1:-1]` slice of the token list (however it is reached: self._components or a local bound to it)
+        sf = interp.run_entry(f, READER)
+        for ev in sf.events:
+            if ev.kind == "slice" and ev.func is f and isinstance(ev.node.slice, ast.Slice) and \
+                    _const(ev.node.slice.lower) == 1 and _const(ev.node.slice.upper) == -1 and ev.recv is not None and \
+                    comp_loc in ev.recv.alias and f not in strippers:
                 strippers.append(f)
     def reaches_itself(f0):
         seen, todo = set(), [f0.name]
@@ -95,8 +106,8 @@ def run(eng, rep, tier):
                         todo.append(c.func.attr)
         return False
     def in_loop(f0):
-        return any(isinstance(l, ast.While) and any(isinstance(x, ast.Assign) and "1:-1" in ast.unparse(x) for x in ast.walk(l))
-                   for l in ast.walk(f0.node))
+        return any(isinstance(l, ast.While) and any(isinstance(x, ast.Slice) and _const(x.lower) == 1 and _const(x.upper) == -1
+                                                      for x in ast.walk(l)) for l in ast.walk(f0.node))
     for f in strippers:
         ob.decide("R1", "C05.1", f, "paren-strip-repeats", reaches_itself(f) or in_loop(f),
                   "outer parentheses are stripped repeatedly (recursion / loop) until the text is no longer surrounded",
